@@ -59,4 +59,34 @@ Definition accepted_under (c : cert) (m : msg) (p : Z) : Prop :=
 Definition budget_ok (i : cert) : Prop :=
   exists l, cissue i = Some l /\ forall pe, In pe l -> 1 <= pe_chain pe.
 
+(* ===== notions used by C05 ===== *)
+(* ---------- what a receiver needs to accept messages under ticket c -------- *)
+(* the ticket is already known (pre-loaded or learnt earlier) *)
+Definition knows (st : store) (c : cert) : Prop :=
+  exists e, Sec.find_key hash8 (hash8 c) (ats st) = Some e /\ e_cert e = c /\ Sec.cert_verify hash8 sig_ok c (e_iss e) = Some true.
+
+(* the ticket is not known, but its issuer is and the link verifies: "same trust root" *)
+Definition can_learn (st : store) (c : cert) : Prop :=
+  Sec.find_key hash8 (hash8 c) (ats st) = None /\
+  exists ie, Sec.get_issuer hash8 st c = LFound ie /\ Sec.cert_verify hash8 sig_ok c (Some (e_cert ie)) = Some true.
+
+(* a ticket a station may sign with *)
+Definition usable (c : cert) : Prop := is_at c = true /\ ckey c <> 0.
+
+(* CA certificates held by a station never carry an unsupported issuer form (they verified once) *)
+Definition not_other (c : cert) : Prop := forall d, cissuer c <> IssDigestOther d.
+Definition ca_wf (st : store) : Prop := forall e, In e (aas st) \/ In e (roots st) -> not_other (e_cert e).
+
+Definition tbs_plain (psid gen payload : Z) (genloc : bool) (inl : option (list Z)) (rc : option cert) : tbsdata :=
+  mkTbs psid (Some gen) genloc false false false false inl rc payload.
+
+
+(* the inlineP2pcdRequest field a CAM carries: the unknown-ticket list when it is not empty *)
+Definition inline_of (ss : sstate) : option (list Z) :=
+  match unknown ss with [] => None | l => Some l end.
+
+(* the receiver either knows the ticket, or can learn it and the message carries it *)
+Definition receiver_ready (st : store) (c : cert) (sg : signer) : Prop :=
+  knows st c \/ (can_learn st c /\ sg = SCerts [c]).
+
 End SecSpec.
